@@ -53,10 +53,17 @@ def check_no_stack(ctx, cfg):
     rule = "C15.K"
     db = ctx.db(cfg)
     n = 0
-    for key in NO_STACK:
+    fns = [k for k in NO_STACK if "{closure" not in k]
+    todo = []
+    for key in fns:
         b = ctx.body(cfg, key, rule)
         if b is None:
             continue
+        todo.append(b)
+        # closures defined inside a listed constructor run in the same frames: discovered, not anchored
+        todo += [c for c in db.bodies if c["kind"] == "Closure" and c.get("root") == b["path"]]
+    for b in todo:
+        key = b["key"]
         bad = [(i, l["s"]) for i, l in enumerate(b["mir"]["locals"]) if by_value_array(l["ty"])]
         ctx.ob(rule, key, not bad, "locals/temporaries holding a GenericArray by value: %s" % (bad[:3] if bad else "none (%d locals inspected)" % len(b["mir"]["locals"])), at=b["at"], cfg=cfg)
         n += 1
@@ -70,7 +77,7 @@ def check_no_stack(ctx, cfg):
                         bad2 = [(i, l["s"]) for i, l in enumerate(cb["mir"]["locals"]) if by_value_array(l["ty"])]
                         ctx.ob(rule, "%s -> %s" % (key, cb["key"]), not bad2, "callee %s holds a GenericArray by value: %s" % (cb["key"], bad2[:2] if bad2 else "no"), at=cb["at"], cfg=cfg, frozen=False)
                         break
-    ctx.floor(rule, "boxed constructors inspected (%s)" % cfg, n, 12)
+    ctx.floor(rule, "boxed constructors inspected (%s)" % cfg, n, len(fns))
 
 
 def check_guards(ctx, cfg):
